@@ -309,6 +309,23 @@ def run(chk):
           excl.append(const_str(c.comparators[0]))
   chk.ob('C12-R3', sorted(excl) == ['++?', '@'], None, 'only @... and ++? are exempt from renaming',
          'exemptions are %s' % sorted(excl), fi=f.fi, node=ren)
+  # ... and the two name sets themselves are complete: every rule head (every
+  # @Make target) is in them - a name left out keeps its unprefixed spelling
+  for q_ in ('parse.DefinedPredicates', 'parse.MadePredicates', 'parse.DefinedPredicatesRules'):
+    w_ = FnView(repo, q_)
+    filt = [x for x in walk_local(w_.fi.node) if isinstance(x, ast.comprehension) and x.ifs] + \
+        [x for x in walk_local(w_.fi.node) if isinstance(x, ast.If) and
+         any(isinstance(y, (ast.Continue,)) for y in ast.walk(x))] + \
+        [x for x in walk_local(w_.fi.node) if isinstance(x, ast.Call) and call_tail(x) in (
+            'filter', 'difference', 'discard', 'remove', 'pop') ] + \
+        [x for x in walk_local(w_.fi.node) if isinstance(x, ast.BinOp) and isinstance(x.op, ast.Sub)]
+    if q_ == 'parse.DefinedPredicatesRules':
+      filt = [x for x in filt if not isinstance(x, ast.Call)]
+    chk.ob('C12-R3', not filt, None,
+           '%s leaves no predicate out' % q_.split('.')[-1],
+           'names are filtered (`%s`): a predicate of an imported file that is left out keeps '
+           'its unprefixed name and collides with the same name in another file'
+           % (norm(filt[0], 60) if filt else ''), fi=w_.fi, node=filt[0] if filt else None)
   rn = [c for c in ast.walk(ren) if isinstance(c, ast.Call) and call_tail(c) == 'RenamePredicate']
   ok = all(len(c.args) == 3 and isinstance(c.args[2], ast.BinOp) and
            'this_file_prefix' in norm(c.args[2].left) for c in rn)
